@@ -437,7 +437,11 @@ def monitor_proc(L, F):
                 % (len(missing), len(lid), missing[0], pos), missing)
     if fid != [i for i in lid]:
         return ("reordered", "same ids, different order")
-    return ("record-bytes-differ", "same ids, different record bytes or value frames")
+    if all(a[1] == b[1] for a, b in zip(L, F)):
+        n = sum(1 for a, b in zip(L, F) if a[2] != b[2])
+        return ("value-frames-differ", "same ids and record bytes, but the value frames (.dat) of %d records differ: the follower's data file is "
+                "misaligned from the first one on" % n)
+    return ("record-bytes-differ", "same ids, different record bytes")
 
 
 class Scenario:
@@ -497,7 +501,9 @@ class Scenario:
             self.workload(self.post, self.seed + 2, 200000)
             t0 = time.time()
             L = F = None
-            while time.time() - t0 < 8:  # quiescence: leader idle, follower flushes every 200 ms
+            # cuts that the stream has not reached yet will still fire (each costs the 5 s reconnect sleep)
+            pending = max(0, ncuts + 1 - open(d + "/proxy.out").read().count("accepted"))
+            while time.time() - t0 < 8 + 7 * pending:  # quiescence: leader idle, follower flushes every 200 ms
                 L, F = parse_dir(d + "/leader"), parse_dir(d + "/follower")
                 if L == F and len(L) > 0:
                     break
@@ -507,6 +513,8 @@ class Scenario:
             cause = "other"
             if m and m[0] == "duplicate-record" and m[2] <= 64:
                 cause = "same-write-buffer"  # both copies fit one 4 KiB AofFile write buffer
+            if m and m[0] == "value-frames-differ":
+                cause = "data-file-misaligned"
             if m and m[0] in ("gap", "missing-prefix") and len(m) > 2:
                 # records lost inside a file transfer that the follower reported as finished
                 fin = re.findall(r"start recv files util aofId (\w{8})(\w{8})\w{16}\n(?:(?!start recv files).*\n)*?.*recv files finish", flog)
